@@ -369,12 +369,21 @@ impl<'a> Judge<'a> {
       // classify a missing live entry as C17 (enumeration), everything else as usual
       let before = self.vs.len();
       self.read(h, e, api, k, got, Refresh::Maybe, false);
+      let mut also = vec![];
       for v in &mut self.vs[before..] {
         if v.class == "unexpired_entry_reported_missing" {
           v.property = "C17".into();
           v.class = "live_entry_not_enumerated".into();
+        } else if v.class == "expired_entry_served" {
+          // an enumeration that yields an expired entry breaks C12 (a read returned it) and
+          // C17 ("... and omit expired ones") alike
+          let mut c = v.clone();
+          c.property = "C17".into();
+          c.class = "expired_entry_enumerated".into();
+          also.push(c);
         }
       }
+      self.vs.extend(also);
     }
   }
 }
